@@ -1,5 +1,17 @@
 /-
 C12 — Sequence inputs produce exactly the specified residue graph.
+
+Statement (fixed): "A -seq list, a .txt/.fasta/.ig/.json file or a gen_seq specification yields a residue
+graph with exactly the stated residues (names after one-letter translation and 5'/3' terminal naming),
+numbered consecutively from 1 in input order, connected linearly, as the macro tree shape dictates, or as
+the connect records state, a circular .ig sequence being closed by an edge labelled as circular. The JSON
+written by gen_seq is read back by gen_params as the same labelled graph."
+
+Property theorems only (helper lemmas live in Proofs/Seq.lean).  The left-hand sides are the model of the
+code (`Model/Seq.lean`, tied to /repo by the translator for the one-letter tables and by the
+correspondence of harness/c12.py for everything else), the right-hand sides are the specification
+(`Seq.spec…`), the same definitions the oracle evaluates on the implementation's output.  Every theorem
+holds for sequences, line breakings, trees and macro sequences of ANY length (induction, no bound).
 -/
 import PolyplyVerif.Generated.Tables
 import PolyplyVerif.Model.Seq
@@ -8,13 +20,265 @@ import PolyplyVerif.Proofs.Seq
 namespace PolyplyVerif.C12
 open PolyplyVerif PolyplyVerif.Seq
 
+/-! ### the one-letter tables -/
+
 /-- every code of the specification is answered by the repository's table, and there are no others -/
 def sameTable (repo std : List (String × String)) : Bool :=
-  repo.length == std.length && (repo.map (·.1)).Nodup && std.all fun kv => (repo.find? fun e => e.1 == kv.1).map (·.2) == some kv.2
+  repo.length == std.length && (repo.map (·.1)).Nodup &&
+    std.all fun kv => (repo.find? fun e => e.1 == kv.1).map (·.2) == some kv.2
 
+/-- The tables translated from `simple_seq_parsers.py` on this run are the one-letter codes of the
+specification (`D`+base, base with T→U, the amino-acid codes).  Table fact, `decide` on the literals. -/
 theorem C12_tables :
     sameTable Tabs.repo.dna Tabs.standard.dna = true ∧ sameTable Tabs.repo.rna Tabs.standard.rna = true ∧
     sameTable Tabs.repo.aa Tabs.standard.aa = true := by
   decide
+
+example : lookup1 Tabs.repo.aa 'W' = some "TRP" ∧ lookup1 Tabs.repo.dna 'T' = some "DT" ∧
+    lookup1 Tabs.repo.rna 'T' = some "U" ∧ lookup1 Tabs.repo.dna 'U' = none := by decide
+
+/-! ### linear sequences -/
+
+/-- What "exactly the stated residues, numbered consecutively from 1 in input order, connected linearly"
+means for `specLinear`: keys `0..n-1`, resids `1..n`, the names in order, edges `(i, i+1)`. -/
+theorem C12_linear_shape (names : List String) :
+    (specLinear names).nodes.map (·.key) = List.range names.length ∧
+    (specLinear names).nodes.map (·.resid) = List.range' 1 names.length ∧
+    (specLinear names).nodes.map (·.resname) = names ∧
+    (specLinear names).edges = (List.range (names.length - 1)).map (fun i => ⟨i, i + 1, []⟩) ∧
+    (specLinear names).maxResid = names.length := by
+  refine ⟨?_, ?_, ?_, rfl, rfl⟩
+  · have := Proofs.Seq.map_zipIdx_snd names 0 0
+    simp only [specLinear, List.map_map]
+    rw [List.range_eq_range', ← this]
+    apply List.map_congr_left
+    intro p _
+    simp
+  · have := Proofs.Seq.map_zipIdx_snd names 1 0
+    simp only [specLinear, List.map_map]
+    rw [← this]
+    apply List.map_congr_left
+    intro p _
+    simp [Nat.add_comm]
+  · simp only [specLinear, List.map_map]
+    have : ((fun (n : RNode) => n.resname) ∘ fun (x : String × Nat) => (⟨x.2, x.2 + 1, x.1⟩ : RNode)) = Prod.fst := rfl
+    rw [this]
+    simp
+
+example : (specLinear ["A", "B", "C"]).nodes = [⟨0, 1, "A"⟩, ⟨1, 2, "B"⟩, ⟨2, 3, "C"⟩] ∧
+    (specLinear ["A", "B", "C"]).edges = [⟨0, 1, []⟩, ⟨1, 2, []⟩] := by decide
+
+/-- `-seq name:k …` (`split_seq_string` + `from_monomer_seq_linear`): for EVERY monomer list the residue
+graph is the linear graph of the stated residues — `k` copies of each name, in order, resid `i+1`
+(through `MetaMolecule.add_node`'s `max_resid` bookkeeping), edges `(i, i+1)`. -/
+theorem C12_linear (monomers : List (String × Int)) :
+    fromMonomerSeqLinear monomers = specLinear (expand monomers) := by
+  unfold fromMonomerSeqLinear expand
+  rw [Proofs.Seq.foldl_flatMap' (fun m => List.replicate m.2.toNat m.1) addMonomer monomers]
+  have := Proofs.Seq.addMonomer_fold (monomers.flatMap fun m => List.replicate m.2.toNat m.1) []
+  simp only [List.nil_append] at this
+  have h0 : (specLinear [], ([] : List String).length) = (RGraph.empty, 0) := rfl
+  rw [h0] at this
+  rw [this]
+
+example : fromMonomerSeqLinear [("PEO", 2), ("X", 0), ("OH", 1)] =
+    ⟨[⟨0, 1, "PEO"⟩, ⟨1, 2, "PEO"⟩, ⟨2, 3, "OH"⟩], [⟨0, 1, []⟩, ⟨1, 2, []⟩], 3⟩ := by decide
+
+/-- The graph `_monomers_to_linear_nx_graph` builds, seen through `MetaMolecule`, is the linear graph of
+the monomers for EVERY length — in particular one monomer gives one residue (the defect fixed by commit
+4cf656d gave an empty graph there; the correspondence turns red on its reverse patch). -/
+theorem C12_linear_parsers (names : List String) : toMeta (linearGraph names) = specLinear names :=
+  Proofs.Seq.toMeta_linearGraph names
+
+example : toMeta (linearGraph ["GLY"]) = ⟨[⟨0, 1, "GLY"⟩], [], 1⟩ := by decide
+
+/-- `.txt`: for every list of residue names (non-empty, free of white space) and EVERY breaking into
+non-empty lines (names separated by single spaces, no blank lines), reading the file gives the linear
+graph of the names in file order. -/
+theorem C12_linear_txt (T : Tabs) (chunks : List (List String)) (hc : ∀ ch ∈ chunks, ch ≠ [])
+    (ht : ∀ ch ∈ chunks, ∀ s ∈ ch, GoodToken s) :
+    fromSequenceFile T "txt".toList (renderTxt chunks) = some (specLinear chunks.flatten) := by
+  have h : String.ofList (lowerAscii "txt".toList) = "txt" := by decide
+  simp only [fromSequenceFile, h, if_true]
+  rw [Proofs.Seq.parseTxt_render chunks hc ht, Proofs.Seq.toMeta_linearGraph]
+
+example : renderTxt [["PEO", "PEO"], ["OH"]] = "PEO PEO\nOH\n".toList ∧
+    (∀ ch ∈ [["PEO", "PEO"], ["OH"]], ∀ s ∈ ch, GoodToken s) := by
+  refine ⟨by decide, ?_⟩
+  intro ch hch s hs
+  simp only [List.mem_cons, List.not_mem_nil, or_false] at hch
+  rcases hch with rfl | rfl <;> simp only [List.mem_cons, List.not_mem_nil, or_false] at hs <;>
+    (try rcases hs with rfl | rfl) <;> (try subst hs) <;> exact ⟨by decide, by decide⟩
+
+/-! ### one-letter translation and terminal naming -/
+
+/-- `_parse_plain` for a comment naming one alphabet: EVERY letter of EVERY line is translated by the table
+of that alphabet (an unknown letter refuses the file), the lines being stripped and concatenated — so
+the result does not depend on the line breaking; DNA/RNA then get the terminal names of `specNames`. -/
+theorem C12_translate (T : Tabs) (a : Alphabet) (lines : List Text) :
+    plainMonomers T (flagsOf a) lines = specNames T a false (lines.flatMap strip) :=
+  Proofs.Seq.plainMonomers_spec T a lines
+
+/-- What `specNames` says for a linear sequence whose letters translate to `names`: proteins keep the
+names; a nucleic acid of two or more residues gets `5` on the first and `3` on the last and nothing else
+changes; a SINGLE nucleotide gets both (`X` becomes `X53`: the code does `monomers[0] += "5"` then
+`monomers[-1] += "3"`; modelled as the code does); an empty nucleic acid is refused. -/
+theorem C12_termini (T : Tabs) (a : Alphabet) (letters : List Char) (names : List String)
+    (h : letters.mapM (lookup1 (a.table T)) = some names) :
+    (a.nucleic = false → specNames T a false letters = some names) ∧
+    (a.nucleic = true → names = [] → specNames T a false letters = none) ∧
+    (a.nucleic = true → ∀ x, names = [x] → specNames T a false letters = some [x ++ "5" ++ "3"]) ∧
+    (a.nucleic = true → ∀ x mid y, names = x :: (mid ++ [y]) →
+      specNames T a false letters = some ((x ++ "5") :: (mid ++ [y ++ "3"]))) := by
+  unfold specNames
+  rw [h]
+  refine ⟨?_, ?_, ?_, ?_⟩
+  · intro ha; cases names <;> simp [ha]
+  · intro ha hn; simp [ha, hn]
+  · intro ha x hn; subst hn; simp [ha, modifyLast]
+  · intro ha x mid y hn
+    subst hn
+    simp only [Option.bind_some, List.isEmpty_cons, Bool.false_eq_true, if_false, ha, Bool.not_false, Bool.and_self,
+      if_true]
+    rw [Proofs.Seq.suffix_shape]
+
+example : specNames Tabs.repo .dna false "ACGT".toList = some ["DA5", "DC", "DG", "DT3"] ∧
+    specNames Tabs.repo .rna false "T".toList = some ["U53"] ∧
+    specNames Tabs.repo .aa false "GW".toList = some ["GLY", "TRP"] ∧
+    specNames Tabs.repo .dna false "AXG".toList = none := by decide
+
+/-- `.fasta`: header line naming one alphabet, then the letters in EVERY breaking into lines (no white
+space, no `>`): the residue graph is the specified one — translated, terminally named, linear. -/
+theorem C12_fasta (T : Tabs) (a : Alphabet) (header : Text) (chunks : List Text)
+    (hh : '\n' ∉ header) (hid : identify [header] = some (flagsOf a))
+    (hc : ∀ ch ∈ chunks, ∀ c ∈ ch, isSpace c = false ∧ c ≠ '>') :
+    fromSequenceFile T "fasta".toList (renderFasta header chunks) = specSeqFile T a false chunks.flatten := by
+  have h1 : String.ofList (lowerAscii "fasta".toList) = "fasta" := by decide
+  have h2 : ¬ ("fasta" = "txt") := by decide
+  simp only [fromSequenceFile, h1, h2, if_true, if_false]
+  exact Proofs.Seq.parseFasta_render T a header chunks hh hid hc
+
+example : identify [">my DNA strand".toList] = some (flagsOf .dna) ∧
+    renderFasta ">my DNA strand".toList ["AC".toList, "G".toList] = ">my DNA strand\nAC\nG\n".toList ∧
+    specSeqFile Tabs.repo .dna false "ACG".toList =
+      some ⟨[⟨0, 1, "DA5"⟩, ⟨1, 2, "DC"⟩, ⟨2, 3, "DG3"⟩], [⟨0, 1, []⟩, ⟨1, 2, []⟩], 3⟩ := by decide
+
+/-! ### circular sequences -/
+
+/-- The `ter_char == '2'` branch of `parse_ig` after `_parse_plain`, for EVERY sequence: the result is
+the circular graph of the specification — names translated WITHOUT terminal suffixes (they are removed
+again for DNA/RNA, never touched for proteins: the defect fixed by commit f8020d1), linear edges plus the
+closing edge `(0, n-1)` labelled `linktype = circle`; an empty circular sequence is refused. -/
+theorem C12_circular (T : Tabs) (a : Alphabet) (lines : List Text) :
+    ((parsePlain T (flagsOf a) lines).bind (closeCircle (flagsOf a))).map toMeta
+      = specSeqFile T a true (lines.flatMap strip) :=
+  Proofs.Seq.parsePlain_circular T a lines
+
+/-- What `specSeqFile` says for a circular sequence of three or more residues: the residues are the
+plain translations, numbered from 1, the edges are the linear ones and exactly one more, `(0, n-1)` with
+`linktype = circle`.  (For two residues the single edge carries the label, for one it is a self loop.) -/
+theorem C12_circular_shape (T : Tabs) (a : Alphabet) (letters : List Char) (names : List String)
+    (h : letters.mapM (lookup1 (a.table T)) = some names) (hn : 3 ≤ names.length) :
+    specSeqFile T a true letters =
+      some { specLinear names with
+             edges := (specLinear names).edges ++ [⟨0, names.length - 1, [("linktype", "circle")]⟩] } := by
+  rw [Proofs.Seq.specSeqFile_circular]
+  have h2 : ¬ names.length ≤ 2 := by omega
+  have hs : specNames T a true letters = some names := by
+    unfold specNames
+    rw [h]
+    have : names ≠ [] := by intro e; rw [e] at hn; simp at hn
+    simp [this]
+  rw [hs]
+  simp only [Option.map_some, Proofs.Seq.circEdges, h2, if_false]
+  rfl
+
+example : ((parsePlain Tabs.repo (flagsOf .dna) ["ACG".toList]).bind (closeCircle (flagsOf .dna))).map toMeta =
+    some ⟨[⟨0, 1, "DA"⟩, ⟨1, 2, "DC"⟩, ⟨2, 3, "DG"⟩], [⟨0, 1, []⟩, ⟨1, 2, []⟩, ⟨0, 2, [("linktype", "circle")]⟩], 3⟩ ∧
+    specSeqFile Tabs.repo .aa true "GAV".toList =
+      some ⟨[⟨0, 1, "GLY"⟩, ⟨1, 2, "ALA"⟩, ⟨2, 3, "VAL"⟩], [⟨0, 1, []⟩, ⟨1, 2, []⟩, ⟨0, 2, [("linktype", "circle")]⟩], 3⟩ := by
+  decide
+
+/-! ### macro trees -/
+
+/-- `nx.balanced_tree(r, h)` as `_tree_edges` builds it (queue loop), for EVERY size `n` and branching
+factor `r ≥ 1`: node `j ≥ 1` hangs below node `(j-1) / r`, in this order. -/
+theorem C12_tree (n r : Nat) (hr : 1 ≤ r) : treeEdges n r = specTreeEdges n r :=
+  Proofs.Seq.treeEdges_spec n r hr
+
+/-- branching factor 0: a single node without edges -/
+theorem C12_tree_zero (n levels : Nat) : treeEdges n 0 = [] ∧ treeSize 0 levels ≤ 1 :=
+  ⟨Proofs.Seq.treeEdges_zero n, Proofs.Seq.treeSize_zero_le levels⟩
+
+/-- the number of nodes is networkx's `(r^levels - 1) / (r - 1)` (`levels` for `r = 1`) -/
+theorem C12_tree_size (r levels : Nat) (hr : 1 ≤ r) :
+    treeSize r levels * (r - 1) + 1 = r ^ levels ∧ treeSize 1 levels = levels :=
+  ⟨Proofs.Seq.treeSize_geom r levels hr, Proofs.Seq.treeSize_one levels⟩
+
+example : treeSize 2 3 = 7 ∧ treeEdges 7 2 = [(0, 1), (0, 2), (1, 3), (1, 4), (2, 5), (2, 6)] ∧
+    treeEdges 4 1 = [(0, 1), (1, 2), (2, 3)] := by decide
+
+/-! ### sequences of macros, connect records -/
+
+/-- `generate_seq_graph`'s loop of `disjoint_union`s, for EVERY list of blocks: block `k` occupies the
+consecutive keys `offset k, offset k + 1, …` (`offset k` = total size of the blocks before it), in block
+order, carries `seqid = k`, and its edges are shifted by `offset k`. -/
+theorem C12_union_offsets (blocks : List Block) :
+    unionBlocks blocks = specUnion blocks ∧
+    (specUnion blocks).nodes.map (·.key) = List.range (offset blocks blocks.length) ∧
+    ∀ s, (specUnion blocks).findSeqid s =
+      match blocks[s]? with
+      | some b => List.range' (offset blocks s) b.names.length
+      | none => [] :=
+  ⟨Proofs.Seq.unionBlocks_spec blocks, Proofs.Seq.specUnion_keys blocks, Proofs.Seq.specUnion_findSeqid blocks⟩
+
+example : unionBlocks [⟨["A", "A"], [(0, 1)]⟩, ⟨["B"], []⟩, ⟨["C", "C"], [(0, 1)]⟩] =
+    ⟨[⟨0, "A", none, some 0, []⟩, ⟨1, "A", none, some 0, []⟩, ⟨2, "B", none, some 1, []⟩,
+      ⟨3, "C", none, some 2, []⟩, ⟨4, "C", none, some 2, []⟩], [⟨0, 1, []⟩, ⟨3, 4, []⟩]⟩ := by decide
+
+/-- One item `a-b` of a connect record `i:j:…` on the laid-out blocks (whatever edges were added
+before): it adds exactly the edge between the `a`-th node of block `i` and the `b`-th node of block `j`
+(`offset i + a`, `offset j + b`), and is refused iff a block or a node index does not exist. -/
+theorem C12_connect (blocks : List Block) (g : SGraph) (hg : g.nodes = (specUnion blocks).nodes) (i j a b : Nat) :
+    addConnectEdge g i j a b = (specConnectEdge blocks i j a b).map fun e => g.addEdge e.1 e.2 :=
+  Proofs.Seq.addConnectEdge_spec blocks g hg i j a b
+
+/-- EVERY list of connect records: all are applied in order, or the input is refused -/
+theorem C12_connects (blocks : List Block) (cs : List (Nat × Nat × List (Nat × Nat))) :
+    cs.foldlM addConnect (unionBlocks blocks)
+      = ((Proofs.Seq.flatConnects cs).mapM fun q => specConnectEdge blocks q.1 q.2.1 q.2.2.1 q.2.2.2).map
+          (Proofs.Seq.addEdges (specUnion blocks)) := by
+  rw [Proofs.Seq.unionBlocks_spec]
+  exact Proofs.Seq.connects_fold blocks cs (specUnion blocks) rfl
+
+example : specConnectEdge [⟨["A", "A"], [(0, 1)]⟩, ⟨["B"], []⟩, ⟨["C", "C"], [(0, 1)]⟩] 0 2 1 1 = some (1, 4) ∧
+    specConnectEdge [⟨["A", "A"], [(0, 1)]⟩, ⟨["B"], []⟩] 0 1 0 1 = none := by decide
+
+/-! ### JSON round trip -/
+
+/-- For EVERY gen_seq input the model accepts: the graph handed to `node_link_data` has the keys
+`0..N-1` in order and no resid, so (1) `parse_json`'s sorting by key is the identity and gen_params reads
+back the SAME labelled graph (names, seqid, labels, edges), and (2) `MetaMolecule` numbers the residues
+`1..N` in key order. -/
+theorem C12_json_roundtrip (inp : GenSeqInput) (g : SGraph) (h : genSeq inp = some g) :
+    genSeqReadBack inp = some g ∧
+    (toMeta g).nodes.map (·.key) = List.range g.nodes.length ∧
+    (toMeta g).nodes.map (·.resid) = List.range' 1 g.nodes.length ∧
+    (toMeta g).nodes.map (·.resname) = g.nodes.map (·.resname) ∧ (toMeta g).edges = g.edges := by
+  have hw := Proofs.Seq.genSeq_wellKeyed inp g h
+  refine ⟨?_, Proofs.Seq.toMeta_wellKeyed g hw⟩
+  unfold genSeqReadBack
+  rw [h, Option.map_some, Proofs.Seq.parseJson_sorted g hw.1]
+
+/-- reading any node-link document whose nodes are already in key order changes nothing; in general the
+nodes come out sorted by key -/
+theorem C12_json_sorted (g : SGraph) (h : g.nodes.map (·.key) = List.range g.nodes.length) :
+    parseJson (nodeLinkData g) = g :=
+  Proofs.Seq.parseJson_sorted g h
+
+example : (genSeq { fromFile := [], macroStrings := ["A:2:1:PS-1".toList, "B:2:2:PEO-1.0,X-0".toList],
+                    seq := some ["A", "B"], connects := ["0:1:1-0".toList], modifications := ["1:OH".toList],
+                    tags := ["0:chiral:R-1".toList] }).map (fun g => (g.nodes.map (·.resname), g.edges.map fun e => (e.u, e.v)))
+    = some (["PS", "PS", "PEO", "OH", "OH"], [(0, 1), (2, 3), (2, 4), (1, 2)]) := by decide
 
 end PolyplyVerif.C12
